@@ -185,7 +185,7 @@ def _main(a, prop, mod, t0, tmp):
     if tier == 'thorough':
         # the thorough tier runs the same workload families 4x wider and ~10x longer: it must observe at least twice
         # what the quick tier must, plus what the module demands for thorough only (e.g. exhaustive enumerations)
-        floors = {k: v * 2 for k, v in floors.items()}
+        floors = {k: (v * 2 if v >= 100 else v) for k, v in floors.items()}     # small floors are corpus sizes / anchors: fixed
         floors.update(getattr(mod, 'FLOORS_THOROUGH', {}))
     unmet = []
     for k, m in floors.items():
